@@ -19,7 +19,9 @@ CONSTANTS N,          \* number of named types: "a", "b" (, "c")
           MaxList,    \* max length of an allOf list
           APs,        \* additionalProperties settings explored, subset of {"absent","true","false","string","any"}
           Nest,       \* BOOLEAN: may the value of an own key be an object that has an allOf list of its own?
-          RootChoice  \* BOOLEAN: the root is a choice `@x | @y` of two of the types (instead of an object)
+          RootChoice, \* BOOLEAN: the root is a choice `@x | @y` of two of the types (instead of an object)
+          OptDefTypes \* BOOLEAN: the named types are created with "keys are optional by default" (the root is not): a key
+                      \* of a type is then optional unless it says otherwise, and keeps that status when inherited
 
 Names == IF N = 2 THEN {"a", "b"} ELSE {"a", "b", "c"}
 NameSeq == IF N = 2 THEN <<"a", "b">> ELSE <<"a", "b", "c">>
@@ -87,7 +89,8 @@ MergeD(o, depth) ==
                  nk |-> IF o.own[i].sub = <<>> THEN <<>>
                         ELSE IF depth = 0 THEN <<"n">> ELSE KeysOf(MergeD(NestedObj(o.own[i]), depth - 1))]]
   IN IF depth = 0 THEN own
-     ELSE LET inh(i) == MergeD(D(o.allOf[i]), depth - 1)
+     ELSE LET inh(i) == LET m == MergeD(D(o.allOf[i]), depth - 1) IN
+                            [j \in 1..Len(m) |-> [k |-> m[j].k, opt |-> m[j].opt \/ OptDefTypes, nk |-> m[j].nk]]
               RECURSIVE Cat(_)
               Cat(i) == IF i > Len(o.allOf) THEN <<>> ELSE inh(i) \o Cat(i + 1)
           IN own \o Cat(1)
@@ -132,7 +135,7 @@ NestedHeirGains == (done /\ ~Structural /\ root.kind = "object") =>
                          /\ nk[1] = "n" /\ Len(nk) = 1 + Len(m)
                          /\ \A j \in 1..Len(m) : nk[j + 1] = m[j].k
 
-Emit == done => PrintT(ToJson([types |-> [i \in 1..N |-> [name |-> NameSeq[i], d |-> def[i]]], root |-> root,
+Emit == done => PrintT(ToJson([optdef |-> OptDefTypes, types |-> [i \in 1..N |-> [name |-> NameSeq[i], d |-> def[i]]], root |-> root,
                                refusals |-> Refusals,
                                keys |-> IF Structural \/ root.kind # "object" THEN <<>> ELSE Merge(root),
                                origin |-> IF Structural \/ root.kind # "object" THEN <<>> ELSE OriginD(root, "root", N + 2),
